@@ -1,0 +1,27 @@
+//go:build verif
+// +build verif
+
+// Contracts for package math (build tag verif only; no executable code).
+package math
+
+//@ func math.MinInt
+//@ props C16 C01 C09 C12
+//@ pure
+//@ ensures [lower] forall i int :: 0 <= i && i < len(values) ==> ret <= values[i]
+//@ ensures [member] ret == 9223372036854775807 || exists i int :: 0 <= i && i < len(values) && ret == values[i]
+//@ loop 1
+//@ invariant [range] 0 - 1 <= rangeindex && (rangeindex < len(values) || rangeindex == 0 - 1)
+//@ invariant [lower] forall i int :: 0 <= i && i <= rangeindex ==> min <= values[i]
+//@ invariant [member] min == 9223372036854775807 || exists i int :: 0 <= i && i <= rangeindex && min == values[i]
+//@ invariant [start] rangeindex == 0 - 1 ==> min == 9223372036854775807
+
+//@ func math.MaxInt
+//@ props C01 C12
+//@ pure
+//@ ensures [upper] forall i int :: 0 <= i && i < len(values) ==> ret >= values[i]
+//@ ensures [member] ret == 0 - 9223372036854775807 || exists i int :: 0 <= i && i < len(values) && ret == values[i]
+//@ loop 1
+//@ invariant [range] 0 - 1 <= rangeindex && (rangeindex < len(values) || rangeindex == 0 - 1)
+//@ invariant [upper] forall i int :: 0 <= i && i <= rangeindex ==> max >= values[i]
+//@ invariant [member] max == 0 - 9223372036854775807 || exists i int :: 0 <= i && i <= rangeindex && max == values[i]
+//@ invariant [start] rangeindex == 0 - 1 ==> max == 0 - 9223372036854775807
